@@ -8,6 +8,11 @@
              codes[i] = 0 val, 1 err, 2 empty, 4 hang, 5 skipped, 10 + j panic with signature sigs[j + 1].
    "Digest"  compact, no per-input codes: counts = <<val, err, empty, panic, hang, skipped>> over all 256^free
              extensions of `in`; sigs = panic signatures with their number of occurrences.
+   "TraceReset" / "Set" / "Get"   a history on ONE reused value (HelperObject): TraceReset starts a new value,
+             Set: h = kind of value, in = contents now stored, cls = how ("buffer" | "setters");
+             Get: h = getter, cls/fn/kind as for Call.  The specification's class and the recorded-finding
+             predicates are evaluated on the CURRENT contents tracked in `cur` (a getter's result depends on the
+             current contents only).
    VERDICT (property): no panic inside the library, no hang.  Lines (kept short: TLC wraps long tuples)
      <<"MISMATCH", l, "PANIC" | "HANG", class, count, first>>
    class = the recorded finding class when the input falls in the recorded failing set AND the panic is the
@@ -16,7 +21,7 @@
    INFORMATION: <<"MISMATCH", l, "NOTE", "spec>observed", count, first>> when the observed result class differs
    from the specification's; "INFO" panics of helpers outside the property's list; "BAD" malformed observation (infra). *)
 EXTENDS Helpers, TLC, Json
-VARIABLES l
+VARIABLES l, cur, curkind
 TraceLog == ndJsonDeserialize("trace.ndjson")
 
 SetMin(S) == CHOOSE x \in S : \A y \in S : x <= y
@@ -69,13 +74,19 @@ PanicKind(e) == IF e.h \in InfoHelpers THEN "INFO" ELSE "PANIC"
 \* inside an action) and printed by the action.
 M(kind, cls, cnt, first) == <<"MISMATCH", l, kind, cls, cnt, first>>
 
-CallLines(e) ==
+CallLinesOn(e, inp) ==
   CASE e.cls \in Classes ->
-         LET s == SpecClass(e, e.in) IN IF s = e.cls THEN {} ELSE {M("NOTE", s \o ">" \o e.cls, 1, 0)}
-    [] e.cls = "panic" -> {M(PanicKind(e), KnownPanic(e.h, e.in, e.fn, e.kind), 1, 0)}
-    [] e.cls = "hang" -> {M("HANG", KnownHang(e.h, e.in), 1, 0)}
-    [] e.cls = "skipped" -> IF KnownHang(e.h, e.in) # "" THEN {} ELSE {M("BAD", "bad skip", 1, 0)}
+         LET s == SpecClass(e, inp) IN IF s = e.cls THEN {} ELSE {M("NOTE", s \o ">" \o e.cls, 1, 0)}
+    [] e.cls = "panic" -> {M(PanicKind(e), KnownPanic(e.h, inp, e.fn, e.kind), 1, 0)}
+    [] e.cls = "hang" -> {M("HANG", KnownHang(e.h, inp), 1, 0)}
+    [] e.cls = "skipped" -> IF KnownHang(e.h, inp) # "" THEN {} ELSE {M("BAD", "bad skip", 1, 0)}
     [] OTHER -> {M("BAD", "unknown class", 1, 0)}
+CallLines(e) == CallLinesOn(e, e.in)
+
+\* reused values
+ObjKindNames == {"MobileIdentity5GS", "DNN", "RequestedNSSAI"}
+GettersOfKind(k) == CASE k = "MobileIdentity5GS" -> GetterNames [] k = "DNN" -> {"DNN.GetDNN"}
+                      [] k = "RequestedNSSAI" -> {"RequestedNssaiToModels"} [] OTHER -> {}
 
 \* per element: <<index, observed code, specification's class code, finding class of a panic / hang>>
 ChunkLines(e) ==
@@ -112,19 +123,24 @@ DigestLines(e) ==
      \cup (IF e.counts[6] = 0 \/ e.h = "LadnToModels" THEN {} ELSE {M("BAD", "bad skip", 1, 0)})
 
 Lines(e) ==
-  CASE e.h \notin AllHelpers -> {M("BAD", "unknown helper", 1, 0)}
+  CASE e.op = "TraceReset" -> {}
+    [] e.op = "Set" -> IF e.h \in ObjKindNames /\ e.cls \in {"buffer", "setters"} THEN {} ELSE {M("BAD", "bad Set", 1, 0)}
+    [] e.op = "Get" -> IF e.h \in GettersOfKind(curkind) THEN CallLinesOn(e, cur) ELSE {M("BAD", "getter of another kind", 1, 0)}
+    [] e.h \notin AllHelpers -> {M("BAD", "unknown helper", 1, 0)}
     [] e.op = "Call" -> CallLines(e)
     [] e.op = "Chunk" -> ChunkLines(e)
     [] e.op = "Digest" -> DigestLines(e)
     [] OTHER -> {M("BAD", "unknown op", 1, 0)}
 Report(e) == \A t \in Lines(e) : PrintT(t)
 
-TInit == l = 1 /\ TLCSet(2, 0)
+TInit == l = 1 /\ cur = <<>> /\ curkind = "" /\ TLCSet(2, 0)
 TNext ==
   /\ l <= Len(TraceLog)
   /\ Report(TraceLog[l])
+  /\ cur' = (CASE TraceLog[l].op = "Set" -> TraceLog[l].in [] TraceLog[l].op = "TraceReset" -> <<>> [] OTHER -> cur)
+  /\ curkind' = (CASE TraceLog[l].op = "Set" -> TraceLog[l].h [] TraceLog[l].op = "TraceReset" -> "" [] OTHER -> curkind)
   /\ TLCSet(2, l)
   /\ l' = l + 1
-TSpec == TInit /\ [][TNext]_l
+TSpec == TInit /\ [][TNext]_<<l, cur, curkind>>
 Consumed == PrintT(<<"CONSUMED", TLCGet(2)>>)
 =============================================================================
